@@ -239,6 +239,10 @@ class Sampler(ABC):
 
             # Call callback function if specified            
             self._call_callback(self.current_point, len(self._samples)-1)
+
+        # Write the last, partially filled batch to disk
+        if batch_size > 0:
+            batch_handler.finalize()
                 
         return self
     
